@@ -49,6 +49,18 @@ def pairs : List String → Option (List (Nat × String))
     pure ((n, c) :: rest)
   | _ => none
 
+/-- the property's "reads back equal, consuming exactly those bytes": equality is up to the documented
+normalisation (white space trimmed, AE titles 16 bytes), so a reader that normalises less is not a
+property failure (it still differs from the model and is reported as such) -/
+def sameUpToNorm (len : Nat) (normToks rres : List String) : Bool :=
+  match rres with
+  | "some" :: n :: ptoks =>
+    n == toString len &&
+      (match parsePdu ptoks with
+       | some q => showPdu (normPdu q) == normToks
+       | none => false)
+  | _ => false
+
 def handleGen (mx : Nat) (strict : Bool) (tail : Bytes) (p : Pdu) (wres rres pfx sp : List String) : String :=
   let wf := wfPdu p
   let validMx := minimumPduSize ≤ mx ∧ mx ≤ maximumPduSize
@@ -70,7 +82,7 @@ def handleGen (mx : Nat) (strict : Bool) (tail : Bytes) (p : Pdu) (wres rres pfx
         s!"PROP-FAIL class=oversize-not-rejected an item content exceeds its length field but write_pdu returned {b.length} bytes"
       else if wf ∧ !validPS38 b then
         s!"PROP-FAIL class=lengths-inconsistent the independent PS3.8 check rejects the {b.length} bytes written"
-      else if wf ∧ validMx ∧ fits ∧ rres ≠ ["some", toString b.length] ++ normToks then
+      else if wf ∧ validMx ∧ fits ∧ !sameUpToNorm b.length normToks rres then
         s!"PROP-FAIL class=roundtrip read_pdu(write_pdu(p) ++ tail) gave {(rres.take 12)} (|bytes|={b.length})"
       else if validMx ∧ fits ∧ pfx.drop 2 ≠ ["0", "-", "-"] then
         s!"PROP-FAIL class=prefix-not-incomplete strict prefix reads as {pfx.drop 2} (bad count, first length, class)"
